@@ -98,6 +98,8 @@ UNITS = {
             I(RAW, r'^impl < T , A : Allocator > RawTable < T , A >$', 'remove', impl='RawTable<T>', key='RawTable::remove'),
             I(RAW, r'^impl < T , A : Allocator > RawTable < T , A >$', 'replace_bucket_with', impl='RawTable<T>', key='RawTable::replace_bucket_with'),
             I(RAW, r'^impl < T , A : Allocator > RawTable < T , A >$', 'insert_no_grow', impl='RawTable<T>', key='RawTable::insert_no_grow'),
+            I(RAW, r'^impl < T , A : Allocator > RawTable < T , A >$', 'remove_entry', impl='RawTable<T>', key='RawTable::remove_entry'),
+            I(RAW, r'^impl < T , A : Allocator > RawTable < T , A >$', 'get', impl='RawTable<T>', key='RawTable::get'),
             dict(I(RAW, r'^impl < T : Clone , A : Allocator \+ Clone > RawTable < T , A >$', 'clone_from_impl', impl='RawTable<T>', key='clone_from_impl::guard'),
                  closure='guard((0, &mut *self), |(index, self_)| {',
                  new_sig='unsafe fn clone_from_impl_guard(index: &usize, self_: &mut RawTable<T>)'),
@@ -1165,6 +1167,16 @@ def glue_rules(toks, i, out, hit):
     t = toks[i]
     n = len(toks)
     T = extract.T
+    # R19d: `B.as_ref()` on a bucket of this table -> `self.elem_ref(&B)`: the bucket must hold a live element (obligation)
+    if t.kind == 'id' and i + 4 < n and [x.text for x in toks[i + 1:i + 5]] == ['.', 'as_ref', '(', ')'] and t.text == 'bucket':
+        out.extend([T('self', t.gap), T('.', ''), T('elem_ref', ''), T('(', ''), T('&', ''), T('bucket', ''), T(')', '')])
+        hit('R19d_element_reference_from_bucket')
+        return i + 5
+    # R8d: the element-equality closure `impl FnMut(&T) -> bool` is passed through untouched: opaque type `EqT`
+    if t.text == 'impl' and [x.text for x in toks[i + 1:i + 9]] == ['FnMut', '(', '&', 'T', ')', '-', '>', 'bool']:
+        out.append(T('EqT', t.gap))
+        hit('R8d_element_eq_closure_type_to_opaque')
+        return i + 9
     if t.text == 'T' and i + 3 < n and [x.text for x in toks[i + 1:i + 4]] == [':', ':', 'NEEDS_DROP']:
         out.extend([T('needs_drop', t.gap), T(':', ''), T(':', ''), T('<', ''), T('T', ''), T('>', ''), T('(', ''), T(')', '')])
         hit('R21_NEEDS_DROP_to_opaque_fn')
